@@ -334,6 +334,9 @@ def analyse_validator(model, func, resolvers):
     byname = {r.name: r for r in resolvers}
     tagvars = {}
     for n in ast.walk(func.node):
+        if isinstance(n, ast.NamedExpr) and isinstance(n.value, ast.Call) and isinstance(n.value.func, ast.Attribute) and n.value.func.attr == "get_type":
+            # tag := resolver.get_type(data) inside the first test: the same binding as the assignment statement
+            n = ast.copy_location(ast.Assign(targets=[n.target], value=n.value), n)
         if isinstance(n, ast.Assign) and isinstance(n.value, ast.Call) and isinstance(n.value.func, ast.Attribute) and n.value.func.attr == "get_type":
             base = n.value.func.value
             if isinstance(base, ast.Name):
@@ -347,6 +350,8 @@ def analyse_validator(model, func, resolvers):
                         tagvars[t.id] = True
 
     def tag_test(test):
+        if isinstance(test, ast.Compare) and isinstance(test.left, ast.NamedExpr) and isinstance(test.left.target, ast.Name) and test.left.target.id in tagvars:
+            test = ast.copy_location(ast.Compare(left=ast.Name(id=test.left.target.id, ctx=ast.Load()), ops=test.ops, comparators=test.comparators), test)
         if isinstance(test, ast.Compare) and len(test.ops) == 1 and isinstance(test.ops[0], ast.Eq) and isinstance(test.left, ast.Name) and test.left.id in tagvars and isinstance(test.comparators[0], ast.Constant):
             return test.comparators[0].value
         return None
